@@ -34,8 +34,14 @@ def mk_handler(table: dict | None, std: int = 1):
     if table is None:
         return EdgeCaseHandler()
     E = [getattr(EdgeCaseResult, n) for n in ECR]
-    d = {metric(m): MetricZeroTPEdgeCaseHandling(no_instances_result=E[v[0]], empty_prediction_result=E[v[1]],
-                                                 empty_reference_result=E[v[2]], normal=E[v[3]]) for m, v in table.items()}
+    def one(v):
+        # the same prescription written the way a user may write it: entries equal to the default are left to default_result
+        if v[0] == v[1] == v[2] == v[3]:
+            return MetricZeroTPEdgeCaseHandling(default_result=E[v[0]])
+        if v[0] == v[3]:
+            return MetricZeroTPEdgeCaseHandling(default_result=E[v[3]], empty_prediction_result=E[v[1]], empty_reference_result=E[v[2]])
+        return MetricZeroTPEdgeCaseHandling(no_instances_result=E[v[0]], empty_prediction_result=E[v[1]], empty_reference_result=E[v[2]], normal=E[v[3]])
+    d = {metric(m): one(v) for m, v in table.items()}
     return EdgeCaseHandler(d, E[std])
 
 
@@ -234,3 +240,53 @@ def chain_pair(rng):
     if rng.random() < 0.3:
         pred, ref = pred.T.copy(), ref.T.copy()
     return pred, ref
+
+
+def second_stage(cfg, out, group="ungrouped"):
+    """re-evaluate the processing pair that evaluate() returned as its first intermediate step (a public object) through the public
+    function panoptic_evaluate with the same components; -> {"ungrouped": (result, steps)} or ('err', name, message)"""
+    import contextlib
+    import io
+    from panoptica.panoptica_evaluator import panoptic_evaluate
+    from panoptica import InputType
+    if isinstance(out, tuple):
+        return out
+    it = {"semantic": InputType.SEMANTIC, "unmatched": InputType.UNMATCHED_INSTANCE, "matched": InputType.MATCHED_INSTANCE}[cfg.get("input", "matched")]
+    ev = make_evaluator(cfg)
+    g = lambda n: getattr(ev, "_Panoptica_Evaluator__" + n)
+    try:
+        pair = out[group][1][it.name]
+        with contextlib.redirect_stdout(io.StringIO()), np.errstate(all="ignore"):
+            res, steps = panoptic_evaluate(pair, instance_approximator=g("instance_approximator"), instance_matcher=g("instance_matcher"),
+                                           instance_metrics=g("eval_metrics"), global_metrics=g("global_metrics"), decision_metric=g("decision_metric"),
+                                           decision_threshold=g("decision_threshold"), edge_case_handler=g("edge_case_handler"), verbose=False)
+        return {group: (res, steps)}
+    except Exception as e:  # noqa
+        return ("err", type(e).__name__, str(e)[:200])
+
+
+def farey_pair(rng=None, lo=0.3, hi=0.45, around=50000):
+    """one reference (label 1) and two competing predictions whose IoUs a/b > c/d differ by exactly 1/(b*d) ~ 4e-10 (distinct
+    scores that agree to nine decimals); the BETTER prediction carries the higher label.  1-D arrays of ~6*10^4 voxels."""
+    import math
+    import random
+    rng = rng or random.Random(1)
+    while True:
+        b, d = rng.randint(around, around + 400), rng.randint(around, around + 400)
+        if b == d or math.gcd(b, d) != 1:
+            continue
+        a = pow(d, -1, b)                      # a*d = 1 (mod b)
+        c = (a * d - 1) // b
+        if lo < a / b < hi and c > 0 and a * d - b * c == 1:
+            break
+    R = min(b, d) - rng.randint(50, 400)
+    if a + c > R:
+        return farey_pair(rng, lo, hi, around)
+    n = R + (b - R) + (d - R) + 6
+    ref = np.zeros((1, n), np.uint8); pred = np.zeros((1, n), np.uint8)
+    ref[0, 0:R] = 1
+    pred[0, 0:c] = 1                           # worse: c inside, d - R outside  -> IoU c/d
+    pred[0, R + 2:R + 2 + (d - R)] = 1
+    pred[0, c:c + a] = 2                       # better: a inside, b - R outside -> IoU a/b
+    pred[0, R + 4 + (d - R):R + 4 + (d - R) + (b - R)] = 2
+    return pred, ref, (a, b, c, d)
